@@ -63,6 +63,7 @@ typedef enum {SYSTEM, USER} LU_space_t;
 
 ExpHeader *zexpanders = 0; /* Array of pointers to 4 types of memory */
 static LU_stack_t stack;
+static int_t        stack_users; /* threads holding work arrays in the tail of the user-supplied stack */
 static int_t        no_expand;
 static int_t        ndim;
 static LU_space_t whichspace; /* 0 - system malloc'd; 1 - user provided */
@@ -90,6 +91,7 @@ void pzgstrf_SetupSpace(void *work, int_t lwork)
         whichspace = USER;   /* user provided space */
         stack.size = lwork;
         stack.used = 0;
+        stack_users = 0;
         stack.top1 = 0;
         stack.top2 = lwork;
         stack.array = (void *) work;
@@ -484,6 +486,20 @@ pzgstrf_WorkInit(int_t n, int_t panel_size, int_t **iworkptr, doublecomplex **dw
 	printf("malloc fails for local dworkptr[] ... dsize " IFMT "\n", dsize);
 	return (isize + dsize + n);
     }
+
+    if ( whichspace == USER ) {
+#if ( MACH==PTHREAD ) /* Use pthread ... */
+        pthread_mutex_lock( &stack.lock );
+#elif ( MACH==OPENMP ) /* Use openMP ... */
+#pragma omp critical ( STACK_LOCK )
+#endif
+        {
+	    ++stack_users;
+        }
+#if ( MACH==PTHREAD ) /* Use pthread ... */
+        pthread_mutex_unlock( &stack.lock );
+#endif
+    }
 	
     return 0;
 }
@@ -521,8 +537,13 @@ void pzgstrf_WorkFree(int_t *iwork, doublecomplex *dwork, GlobalLU_t *Glu)
 #pragma omp critical ( STACK_LOCK )
 #endif
         {
-	    stack.used -= (stack.size - stack.top2);
-	    stack.top2 = stack.size;
+	    /* The tail is shared by the work arrays of all threads: it can
+	       only be given back when no other thread is still using it. */
+	    if ( --stack_users <= 0 ) {
+		stack_users = 0;
+		stack.used -= (stack.size - stack.top2);
+		stack.top2 = stack.size;
+	    }
 	    
 	    /*	pzgstrf_StackCompress(Glu);  */
         }
